@@ -627,6 +627,10 @@ func Recv2[T any](ch <-chan T) (T, bool) {
 			return v, ok
 		default:
 		}
+		if !taskCaller() {
+			v, ok := <-ch
+			return v, ok
+		}
 		if timersPoll(everybodyStuck()) {
 			continue
 		}
@@ -708,7 +712,7 @@ func helperDelta(d int) { st.helpers += d }
 // Done -> Wait -> close(done) -> receive is real, so the race detector sees the
 // same synchronisation as in the shipped code.
 func WGWait(wait func()) {
-	if !isActive() || !multiTask() {
+	if !taskCaller() || !multiTask() {
 		wait()
 		return
 	}
@@ -746,14 +750,38 @@ const graceWait = 500 * time.Microsecond
 //go:noinline
 func multiTask() bool { return st.ntasks >= 2 && !st.seq }
 
-// SelectPark is called from the default clause the instrumenter adds to a select
-// statement that had none: no case is ready, the task hands the token on and polls
-// again when it is scheduled next.  Outside the scheduler (or with nobody to hand
-// over to) the select degrades to a polite busy-wait, which only a goroutine of
-// the library or a runtime timer can end; a real deadlock ends in the watchdog or,
-// when nobody outside the scheduler exists, in the deadlock verdict.
+// taskCaller reports whether the caller is the task holding the token.  A
+// goroutine the library started itself is not: it must not touch scheduler state
+// (timers, stuck counter) and gets the real blocking behaviour.
+//
+//go:norace
+//go:noinline
+func taskCaller() bool { return st.active && !foreignCaller() }
+
+// SelectWake is the extra case the instrumenter adds to a select statement that has
+// no default clause.  For the task holding the token it is always ready, which
+// turns the statement into a poll: when the runtime picks this case (no other case
+// ready, or the coin fell this way) SelectPark hands the token on and the select
+// is entered again - with the channel operands evaluated once, before the first
+// poll.  Everybody else (no simulation running, a goroutine the library started
+// itself) receives a nil channel: the case can never fire and the statement is the
+// blocking select it was, so such a goroutine really waits in its channels and a
+// polling task can rendez-vous with it.
+func SelectWake() <-chan struct{} {
+	if taskCaller() {
+		return closedChan
+	}
+	return nil
+}
+
+var closedChan = func() chan struct{} { c := make(chan struct{}); close(c); return c }()
+
+// SelectPark: no case was taken, the task hands the token on and polls again when
+// it is scheduled next; with nobody to hand over to, a pending simulated timer of
+// the task fires (the clock jumps), else the task waits politely - only a goroutine
+// of the library or a runtime timer can end that wait.
 func SelectPark() {
-	if isActive() {
+	if taskCaller() {
 		if timersPoll(everybodyStuck()) {
 			return
 		}
@@ -781,7 +809,7 @@ func markSoftBlock() {
 
 // SelectDone is inserted at the head of every case of a shimmed select.
 func SelectDone() {
-	if isActive() {
+	if taskCaller() {
 		progress()
 	}
 }
@@ -993,6 +1021,10 @@ func Sleep(d time.Duration) {
 func After(d time.Duration) <-chan time.Time {
 	if _, ok := simNow(); ok {
 		ch := make(chan time.Time, 1)
+		if !taskCaller() {
+			// a goroutine of the library's own is not scheduled: it waits in real time
+			return time.After(d)
+		}
 		if d <= 0 || !timerAdd(int64(d), ch) {
 			if d > 0 {
 				simAdvance(int64(d))
